@@ -173,4 +173,132 @@ theorem clz_facts (S : Int) (h1 : 524288 ≤ S) (h2 : S < 268435456) :
   · generalize n.log2 = k at *
     interval_cases k <;> omega
 
+/-! ### `GetReciprocal` and the output expression -/
+
+/-- the normalised sum minus one (`shifted_sum_minus_one`) -/
+def normZ (S : Int) (h : Nat) : Int := S * 2 ^ h - 2147483648
+
+theorem getReciprocal_eq (S : Int) (h : Nat) (hc : SoftmaxKernel.clz32 S = h) (hu : Gemmlowp.toU32 S = S.toNat) (h0 : 0 ≤ S)
+    (b1 : 2147483648 ≤ S * 2 ^ h) (b2 : S * 2 ^ h < 4294967296) :
+    SoftmaxKernel.getReciprocal S 12 = (SoftmaxKernel.oneOverOnePlusX (normZ S h), 12 - (h : Int)) := by
+  unfold SoftmaxKernel.getReciprocal
+  simp only [hc, hu]
+  have e32 : (2 : Nat) ^ 32 = 4294967296 := by decide
+  have e31 : (2 : Int) ^ 31 = 2147483648 := by decide
+  have hcast : ((S.toNat * 2 ^ h % 2 ^ 32 : Nat) : Int) = S * 2 ^ h := by
+    have hS : ((S.toNat : Nat) : Int) = S := Int.toNat_of_nonneg h0
+    have hlt : S.toNat * 2 ^ h < 4294967296 := by
+      have : ((S.toNat * 2 ^ h : Nat) : Int) = S * 2 ^ h := by push_cast; rw [hS]
+      omega
+    rw [e32, Nat.mod_eq_of_lt hlt]
+    push_cast; rw [hS]
+  rw [hcast, e31]
+  unfold normZ
+  rw [FpMath.cast32_id _ (by omega) (by omega)]
+
+/-- the output of one element over unbounded integers: `clamp(RoundingDivideByPOT(SRDHM(exp, scale), n) + min)` -/
+def outZ (scale : Int) (n : Nat) (qmin qmax e : Int) : Int := clamp (rdivpot (srdhm e scale) n + qmin) qmin qmax
+
+theorem rdivpot_zero (n : Nat) : rdivpot 0 n = 0 := by
+  unfold rdivpot
+  have hp := FpMath.two_pow_pos n
+  simp only [Int.zero_ediv, Int.zero_emod, show ¬ ((0 : Int) < 0) by decide, if_false]
+  generalize (2 : Int) ^ n = p at hp
+  split <;> omega
+
+theorem srdhm_comm_nonneg (a b : Int) (ha : 0 ≤ a) : srdhm a b = srdhm b a := by
+  rw [srdhm_eq_fl a b (by omega), srdhm_eq_fl b a (by omega), Int.mul_comm]
+
+/-- the reference's output expression for one element (`none` = below `diff_min`) -/
+def refOutO (scale nbits qmin qmax : Int) (o : Option Int) : Int :=
+  match o with
+  | some e => clamp (Gemmlowp.roundingDivideByPOT (Gemmlowp.srdhm32 scale e) (nbits + 31 - 8).toNat + qmin) qmin qmax
+  | none => qmin
+
+/-- `softmaxRow8` with its let-bindings named -/
+theorem softmaxRow8_unfold (mult : Int) (ls : Nat) (diffMin qmin qmax x0 : Int) (rest : List Int) :
+    SoftmaxKernel.softmaxRow8 (x0 :: rest) mult ls diffMin qmin qmax =
+      ((x0 :: rest).map fun x => SoftmaxKernel.expOfDiff mult ls diffMin (x - rest.foldl max x0)).map
+        (refOutO (SoftmaxKernel.getReciprocal
+            (((x0 :: rest).map fun x => SoftmaxKernel.expOfDiff mult ls diffMin (x - rest.foldl max x0)).foldl refAcc 0) 12).1
+          (SoftmaxKernel.getReciprocal
+            (((x0 :: rest).map fun x => SoftmaxKernel.expOfDiff mult ls diffMin (x - rest.foldl max x0)).foldl refAcc 0) 12).2
+          qmin qmax) := by
+  unfold SoftmaxKernel.softmaxRow8
+  simp only []
+  congr 1
+
+/-- the reference's output expression for one element, over unbounded integers -/
+theorem ref_out (scale : Int) (h : Nat) (h4 : 4 ≤ h) (hh : h ≤ 12) (qmin qmax : Int) (hq : qmin ≤ qmax) (s0 : 0 ≤ scale)
+    (s1 : scale ≤ 2147483647) (o : Option Int) (ho : ∀ e, o = some e → 0 ≤ e ∧ e ≤ 2147483647) :
+    refOutO scale (12 - (h : Int)) qmin qmax o = outZ scale (35 - h) qmin qmax (o.getD 0) := by
+  have hn : ((12 - (h : Int)) + 31 - 8).toNat = 35 - h := by omega
+  cases o with
+  | none =>
+    simp only [refOutO, Option.getD_none, outZ]
+    have : srdhm 0 scale = 0 := by rw [srdhm_eq_fl 0 scale (by omega), Int.zero_mul]; decide
+    rw [this, rdivpot_zero]
+    unfold clamp; split
+    · omega
+    · split <;> omega
+  | some e =>
+    obtain ⟨e0, e1⟩ := ho e rfl
+    simp only [refOutO, Option.getD_some, outZ, hn]
+    rw [srdhm32_eq_srdhm scale e (by omega) (by omega) (by omega) (by omega), rdbp_eq_rdivpot _ _ (by omega),
+      srdhm_comm_nonneg scale e s0]
+
+/-- the reference row over unbounded integers -/
+def refRow (mult : Int) (ls : Nat) (diffMin qmin qmax mx : Int) (xs : List Int) (h : Nat) : List Int :=
+  let S := xs.foldl (fun a x => a + rdivpot (expZ mult ls diffMin mx x) 12) 0
+  xs.map fun x => outZ (SoftmaxKernel.oneOverOnePlusX (normZ S h)) (35 - h) qmin qmax (expZ mult ls diffMin mx x)
+
+/-- facts about the sum of exponentials of a row of at most 511 elements that contains its maximum -/
+theorem sum_facts (mult : Int) (ls : Nat) (diffMin mx : Int) (hd : diffMin ≤ 0) (xs : List Int) (hmx : mx ∈ xs) (hlen : xs.length ≤ 511) :
+    524288 ≤ xs.foldl (fun a x => a + rdivpot (expZ mult ls diffMin mx x) 12) 0 ∧
+    xs.foldl (fun a x => a + rdivpot (expZ mult ls diffMin mx x) 12) 0 < 268435456 := by
+  have hr := ref_sum (fun x => SoftmaxKernel.expOfDiff mult ls diffMin (x - mx))
+    (fun x e he => expOfDiff_range mult ls diffMin _ e he) xs 0 (by omega) (by omega)
+  have hge := foldl_add_ge_mem (fun x => rdivpot (expZ mult ls diffMin mx x) 12)
+    (fun x => (rdivpot12_range _ (expZ_range mult ls diffMin mx x).1 (expZ_range mult ls diffMin mx x).2).1) xs 0 mx hmx
+  have hm : rdivpot (expZ mult ls diffMin mx mx) 12 = 524288 := by
+    unfold expZ; rw [expZ_max mult ls diffMin mx hd]; exact rdivpot12_max
+  simp only [hm] at hge
+  have h3 := hr.2.2
+  unfold expZ at *
+  constructor <;> omega
+
+/-- **the reference row is the unbounded-integer row** for 1 … 511 elements -/
+theorem ref_row (mult : Int) (ls : Nat) (diffMin qmin qmax : Int) (hd : diffMin ≤ 0) (hq : qmin ≤ qmax) (x0 : Int) (rest : List Int)
+    (hlen : (x0 :: rest).length ≤ 511) :
+    ∃ h : Nat, 4 ≤ h ∧ h ≤ 12 ∧
+      NpuWide.clz32 ((x0 :: rest).foldl (fun a x => a + rdivpot (expZ mult ls diffMin (rest.foldl max x0) x) 12) 0) = (h : Int) ∧
+      0 ≤ normZ ((x0 :: rest).foldl (fun a x => a + rdivpot (expZ mult ls diffMin (rest.foldl max x0) x) 12) 0) h ∧
+      normZ ((x0 :: rest).foldl (fun a x => a + rdivpot (expZ mult ls diffMin (rest.foldl max x0) x) 12) 0) h ≤ 2147483647 ∧
+      SoftmaxKernel.softmaxRow8 (x0 :: rest) mult ls diffMin qmin qmax =
+        refRow mult ls diffMin qmin qmax (rest.foldl max x0) (x0 :: rest) h := by
+  obtain ⟨m1, m2, m3⟩ := foldl_max_facts rest x0
+  have hmx : rest.foldl max x0 ∈ x0 :: rest := by
+    rcases m1 with h | h
+    · rw [h]; exact List.mem_cons_self
+    · exact List.mem_cons_of_mem _ h
+  generalize hmxe : rest.foldl max x0 = mx at *
+  obtain ⟨S1, S2⟩ := sum_facts mult ls diffMin mx hd (x0 :: rest) hmx hlen
+  have hr := ref_sum (fun x => SoftmaxKernel.expOfDiff mult ls diffMin (x - mx))
+    (fun x e he => expOfDiff_range mult ls diffMin _ e he) (x0 :: rest) 0 (by omega) (by omega)
+  obtain ⟨h, h4, h12, c1, c2, c3, b1, b2⟩ := clz_facts _ S1 S2
+  refine ⟨h, h4, h12, c1, by unfold normZ; omega, by unfold normZ; omega, ?_⟩
+  have hrec := getReciprocal_eq _ h c2 c3 (by omega) b1 b2
+  have hsc := (npu_recip_eq (normZ ((x0 :: rest).foldl (fun a x => a + rdivpot (expZ mult ls diffMin mx x) 12) 0) h)
+    (by unfold normZ; omega) (by unfold normZ; omega))
+  rw [softmaxRow8_unfold, hmxe, List.foldl_map]
+  have hsum : (x0 :: rest).foldl (fun a x => refAcc a (SoftmaxKernel.expOfDiff mult ls diffMin (x - mx))) 0 =
+      (x0 :: rest).foldl (fun a x => a + rdivpot (expZ mult ls diffMin mx x) 12) 0 := hr.1
+  rw [hsum, hrec]
+  simp only [List.map_map, refRow]
+  apply List.map_congr_left
+  intro x _
+  simp only [Function.comp]
+  rw [← hsc.1]
+  exact ref_out _ h h4 h12 qmin qmax hq hsc.2.1 hsc.2.2 _ (fun e he => expOfDiff_range mult ls diffMin _ e he)
+
 end VelaVerif.Lemmas.SoftmaxRowL
